@@ -344,19 +344,33 @@ class BaseProduct(object, metaclass=abc.ABCMeta):
         )
 
         removing_placed_workplace_component_set = set()
-        for c in top_component_list:
-            all_finished_flag = all(
+        def all_finished(component):
+            # all tasks of the component and of the components below it
+            return all(
                 map(
                     lambda task: task.state == BaseTaskState.FINISHED,
-                    c.targeted_task_list,
+                    component.targeted_task_list,
                 )
-            )
-            if all_finished_flag and c.placed_workplace is not None:
+            ) and all(map(all_finished, component.child_component_list))
+
+        for c in top_component_list:
+            all_finished_flag = all_finished(c)
+            if all_finished_flag:
                 removing_placed_workplace_component_set.add(c)
 
+        def detach(component):
+            # each component leaves the workplace where it is placed itself
+            # (a child may have moved away from its parent's workplace)
+            workplace = component.placed_workplace
+            if workplace is not None:
+                if component in workplace.placed_component_list:
+                    workplace.placed_component_list.remove(component)
+                component.placed_workplace = None
+            for child_c in component.child_component_list:
+                detach(child_c)
+
         for c in removing_placed_workplace_component_set:
-            c.placed_workplace.remove_placed_component(c)
-            c.set_placed_workplace(None)
+            detach(c)
 
     def remove_absence_time_list(self, absence_time_list):
         """
